@@ -51,6 +51,11 @@ Proof.
   apply (C10_finite_size_abstract N (edge (deps ss)) bp Hcov n). apply byval_m_path. exact H.
 Qed.
 
+(* the marking is exact: a schema is marked iff it lies on a cycle of the recorded dependencies (the saturation
+   always closes within its fuel) *)
+Theorem C10_marking_exact : forall es n, cyclicb es n = true <-> clos_trans N (edge es) n n.
+Proof. exact cyclicb_exact. Qed.
+
 Check C10_finite_size : forall (ss : list sch) (byval_pos : N -> N -> Prop),
   (forall a b, byval_pos a b -> edge (deps ss) a b) ->
   forall n, ~ clos_trans N (byval_m ss byval_pos) n n.
@@ -69,5 +74,6 @@ Example C10_nonvacuous :
 Proof. vm_compute. split; reflexivity. Qed.
 
 Print Assumptions C10_finite_size.
+Print Assumptions C10_marking_exact.
 Print Assumptions cyclicb_complete.
 Print Assumptions cyclicb_sound.
